@@ -5,15 +5,15 @@
 # then runs the given checks against /repo with the patch applied and reverts.
 set -u
 P=$1; M=$2; shift 2
-SRC=/tmp/wt-$P/MUTATION/$M
-DST=/verif/seeded/$P-$M
+SRC=${SRCROOT:-/tmp/wt-$P}/MUTATION/$M
+DST=/verif/seeded/${DSTNAME:-$P-$M}
 export GOFLAGS=-mod=mod GOPROXY=off
 mkdir -p $DST
 cp $SRC/patch.diff $DST/patch.diff
 cp $SRC/demo_test.go $DST/demo_test.go
 cp $SRC/README.md $DST/agent_README.md
 TARGET=$(grep -m1 -oE "[a-z]+(/[a-z0-9_]+)*/[a-z0-9_]+_test\.go" $SRC/demo_test.go | head -1)
-WT=/tmp/wtv-$P-$M
+WT=/tmp/wtv-$P-$M-$$
 git -C /repo worktree add -q $WT HEAD
 cd $WT
 git apply $DST/patch.diff || { echo "patch does not apply"; exit 2; }
